@@ -11,6 +11,7 @@ MCUBatches == {<< <<<<3, 3>>, 1>> >>}
 MCWBatches == {<< <<<<3, 3>>, 2>> >>}
 MCOps == {"FromArraysM", "ScaleND", "NormalizeND", "PartialNorm", "DropD"}
 MCScaleArgs == {<<2, 1>>, <<1, 2>>, <<3, 1>>, <<1, 4>>}
+MCCellArgs == {}
 MCRetCands == {NoneRet}
 MCProjAxes == {<<1>>}
 MCMergeArgs == {<<2, 1>>}
